@@ -35,11 +35,14 @@ def load():
             df = k.get("definition") or ""
             has = "def " in df
             k["class"] = "C" if not has else ("A" if k.get("automatic-tests") else "B")
+            k["relax"] = relax_flags(df)
             for s in k["specializations"]:
                 for a in s["args"]:
                     a["base"], a["depth"], a["const"] = e2.parse_type(a["type"])
                     a["role"] = a.get("role") or "default"
                     a["kind"] = kind_of(a)
+                for a in s["args"]:
+                    a["extent_of"] = extent_scalar(a, s) if a["depth"] == 1 and a["dir"] == "in" else None
         _spec_cache[p] = kernels
     return _spec_cache[p]
 
@@ -93,10 +96,52 @@ def kind_of(a):
     return "data"
 
 
+def relax_flags(source):
+    """Which validity rules the definition itself tests (it raises the corresponding ValueError): only those are
+    relaxed, so that the error branch is enumerated (DESIGN.md 3.2 (iv))."""
+    f = set()
+    if "stops[i] < starts[i]" in source or "start[i] > stop[i]" in source:
+        f.add("order")
+    if "monotonically increasing" in source:
+        f.add("monotone")
+    if "start[i] < 0" in source:
+        f.add("negstart")
+    if "tags[i] < 0" in source:
+        f.add("negtag")
+    if "index out of range" in source:
+        f.add("negcarry")
+    return f
+
+
+def extent_scalar(a, spec):
+    """Name of the scalar argument that declares the extent of input array `a` (lenarray for fromarray, lencarry for
+    fromcarry, offsetslength for fromoffsets ...), or None when the signature does not say."""
+    scal = {}
+    for b in spec["args"]:
+        if b["depth"] == 0 and b["base"] == "int64_t":
+            scal[b["name"].lower()] = b["name"]
+    n = a["name"].lower()
+    stems = [n]
+    for pre in ("from", "to"):
+        if n.startswith(pre) and len(n) > len(pre):
+            stems.append(n[len(pre):])
+    for st in list(stems):
+        if st.endswith("ptr") and st[:-3] not in ("", "from", "to"):
+            stems.append(st[:-3])
+    for st in list(stems):
+        if "stops" in st:
+            stems.append(st.replace("stops", "starts"))
+    for st in stems:
+        for cand in ("len" + st, st + "length", st + "len"):
+            if cand in scal:
+                return scal[cand]
+    return None
+
+
 def scalar_domain(a, tier, shrink=0):
     """Values of a scalar argument; `shrink` lowers the length bound for kernels with many scalars."""
     base, kind = a["base"], a["kind"]
-    n = (2 if tier == "quick" else 3) - shrink
+    n = (3 if tier == "quick" else 4) - shrink
     n = max(n, 1)
     if kind == "flag":
         return [False, True]
@@ -120,10 +165,15 @@ def scalar_domain(a, tier, shrink=0):
 # a domain is a list of (value, relaxed?) ordered with the default first
 
 
+HUGE64 = (1 << 32) + 1     # beyond every extent and not representable in 32 bits
+
+
 def _ints(base, vals, relaxed=()):
     lo, hi = e2.INT_RANGE[base]
     out = []
     for v in vals:
+        if v == "huge":
+            v = hi if hi < HUGE64 else HUGE64
         if v == "max":
             v = hi
         elif v == "max-1":
@@ -140,8 +190,10 @@ def _ints(base, vals, relaxed=()):
     return out
 
 
-def static_domain(a, tier):
-    """Domain of one element that does not depend on other elements."""
+def static_domain(a, tier, relax=()):
+    """Domain of one element that does not depend on other elements.  Index-like kinds take `huge` (the largest value
+    of a narrow type, 2**32+1 for 64-bit types: arithmetic on INT64_MAX overflows in the compiled kernel and in the C
+    reading of the definition alike); data kinds take the true extremes of the C type."""
     base, kind = a["base"], a["kind"]
     t = tier != "quick"
     if kind == "bools":
@@ -153,13 +205,17 @@ def static_domain(a, tier):
         return [(v, False) for v in d]
     signed = e2.INT_RANGE[base][0] < 0
     if kind == "index":
-        return _ints(base, [0, 1, -1, 2, 3, "max"] + ([-2] if t else []))
+        return _ints(base, [0, 1, -1, 2, 3, "huge"] + ([-2] if t else []))
     if kind == "tags":
-        return _ints(base, [0, 1, 2] + (["max"] if t else []), relaxed=[-1])
+        return _ints(base, [0, 1, 2] + (["max"] if t else []), relaxed=[-1] if "negtag" in relax else [])
     if kind in ("parents",):
         return _ints(base, [0, 1, 2, 3])
-    if kind in ("carry", "starts", "stops", "offsets"):
-        return _ints(base, [0, 1, 2, 3, "max"], relaxed=[-1])
+    if kind == "carry":
+        return _ints(base, [0, 1, 2, 3, "huge"], relaxed=[-1] if "negcarry" in relax else [])
+    if kind == "starts":
+        return _ints(base, [0, 1, 2, 3, "huge"], relaxed=[-1] if "negstart" in relax else [])
+    if kind in ("stops", "offsets"):
+        return _ints(base, [0, 1, 2, 3, "huge"])
     if kind == "mask":
         return _ints(base, [0, 1, -1, 2, "max", "min"]) if signed else _ints(base, [0, 1, 2, 128, "max"])
     if signed:
